@@ -32,6 +32,16 @@ CHECKS = {
         "the reference encoder written in the harness from the Malleable C2 definition. Library==reference plus library round trip "
         "gives both cross directions (reference-encoded messages decode with the library and vice versa).",
         ref="§4 C04"),
+    "C02": dict(
+        text="For every block of <=2/3 records with fully symbolic 16-bit index and type (pairwise distinct indices), value lengths "
+        "{0,1,2,4}/{0..4,6} with symbolic bytes and every ending (00 00 + trailing bytes, end of data, truncated record): "
+        "settings_tuple, setting_enums, max_setting_enum and the const/enum/name x raw/pretty x parse views are proved equal to an "
+        "independent TLV walk (order, keys, u16be/u32be, raw bytes), index 36 named by type, unknown indices synthetic, pretty == raw "
+        "where no pretty-printer exists, mappings read-only; 128-byte User-Agent continuation incl. the unterminated case.",
+        note="Trusted: z3; symx; cstruct generated reader interpreted with modelled leaves; OrderedDict/MappingProxyType replaced by "
+        "association-list models with symbolic keys; validity predicate: indices pairwise distinct; name/pretty views over a 10-value "
+        "index domain.",
+        ref="§4 C02"),
     "C15": dict(
         text="iter_find_needle: for every haystack (<=8/12 fully symbolic bytes), needle (1..3 / 1..4,7 symbolic bytes), read-buffer size "
         "1..5,8 / 1..9, start position and search limit, the reported offsets are proved to be exactly the true occurrences (ascending, "
